@@ -23,6 +23,7 @@ import (
 	"math"
 	"reflect"
 	"sync"
+	"sync/atomic"
 	"time"
 	"unsafe"
 
@@ -398,11 +399,11 @@ func roundTrip(c *vlib.Ctx, st *stats, site string, r record.Record, exp expect,
 	pv, stack := vlib.Catch(func() { enc, err = r.MarshalRecord(r) })
 	st.calls++
 	if pv != nil {
-		c.Violate("marshal-never-panics", site, vlib.PanicSite(stack), fmt.Sprintf("MarshalRecord panicked: %v (meta %+v format %d)", pv, exp.meta, exp.format), w)
+		viol(c, "marshal-never-panics", site, vlib.PanicSite(stack), w, "MarshalRecord panicked: %v (meta %+v format %d)", pv, exp.meta, exp.format)
 		return "marshal-panic", nil
 	}
 	if err != nil {
-		c.Violate("marshal-succeeds", site, "error-instead-of-ok", fmt.Sprintf("MarshalRecord returned error %q (meta %+v format %d data %s)", err, exp.meta, exp.format, short(exp.data)), w)
+		viol(c, "marshal-succeeds", site, "error-instead-of-ok", w, "MarshalRecord returned error %q (meta %+v format %d data %s)", err, exp.meta, exp.format, short(exp.data))
 		return "marshal-error", nil
 	}
 	in := make([]byte, len(enc))
@@ -410,35 +411,35 @@ func roundTrip(c *vlib.Ctx, st *stats, site string, r record.Record, exp expect,
 	p := parse(exp.key, in)
 	st.calls++
 	if p.panicV != nil {
-		c.Violate("parse-never-panics", "NewRawWrapper", vlib.PanicSite(p.stack), fmt.Sprintf("NewRawWrapper(%s) panicked: %v", short(in), p.panicV), w)
+		viol(c, "parse-never-panics", "NewRawWrapper", vlib.PanicSite(p.stack), w, "NewRawWrapper(%s) panicked: %v", short(in), p.panicV)
 		return "parse-panic", nil
 	}
 	if p.err != nil {
-		c.Violate("roundtrip-parses", site, "error-instead-of-ok", fmt.Sprintf("NewRawWrapper(MarshalRecord(r)) = error %q; stored form %s (meta %+v format %d data %s)", p.err, short(in), exp.meta, exp.format, short(exp.data)), w)
+		viol(c, "roundtrip-parses", site, "error-instead-of-ok", w, "NewRawWrapper(MarshalRecord(r)) = error %q; stored form %s (meta %+v format %d data %s)", p.err, short(in), exp.meta, exp.format, short(exp.data))
 		return "parse-error", nil
 	}
 	bad := false
 	if p.key != exp.key {
 		bad = true
-		c.Violate("roundtrip-key", site, "wrong-key", fmt.Sprintf("key %q became %q", exp.key, p.key), w)
+		viol(c, "roundtrip-key", site, "wrong-key", w, "key %q became %q", exp.key, p.key)
 	}
 	if p.meta != exp.meta {
 		bad = true
-		c.Violate("roundtrip-meta", site, "wrong-meta", fmt.Sprintf("meta %+v became %+v; stored form %s", exp.meta, p.meta, short(in)), w)
+		viol(c, "roundtrip-meta", site, "wrong-meta", w, "meta %+v became %+v; stored form %s", exp.meta, p.meta, short(in))
 	}
 	if exp.meta.deleted() {
 		if len(p.data) != 0 {
 			bad = true
-			c.Violate("deleted-has-no-data", site, "data-present", fmt.Sprintf("deleted record (Deleted=%d) came back with %d data bytes %s", exp.meta.D, len(p.data), short(p.data)), w)
+			viol(c, "deleted-has-no-data", site, "data-present", w, "deleted record (Deleted=%d) came back with %d data bytes %s", exp.meta.D, len(p.data), short(p.data))
 		}
 	} else {
 		if exp.typed == nil && p.format != exp.format {
 			bad = true
-			c.Violate("roundtrip-format", site, "wrong-format", fmt.Sprintf("format %d became %d; stored form %s", exp.format, p.format, short(in)), w)
+			viol(c, "roundtrip-format", site, "wrong-format", w, "format %d became %d; stored form %s", exp.format, p.format, short(in))
 		}
 		if exp.typed == nil && !bytes.Equal(p.data, exp.data) {
 			bad = true
-			c.Violate("roundtrip-data", site, "wrong-bytes", fmt.Sprintf("data %s became %s (format %d); stored form %s", short(exp.data), short(p.data), exp.format, short(in)), w)
+			viol(c, "roundtrip-data", site, "wrong-bytes", w, "data %s became %s (format %d); stored form %s", short(exp.data), short(p.data), exp.format, short(in))
 		}
 		if exp.typed != nil {
 			nr := &TestRec{}
@@ -448,22 +449,22 @@ func roundTrip(c *vlib.Ctx, st *stats, site string, r record.Record, exp expect,
 			switch {
 			case pv != nil:
 				bad = true
-				c.Violate("unwrap-never-panics", "Unwrap", vlib.PanicSite(stack), fmt.Sprintf("Unwrap panicked: %v", pv), w)
+				viol(c, "unwrap-never-panics", "Unwrap", vlib.PanicSite(stack), w, "Unwrap panicked: %v", pv)
 			case uerr != nil:
 				bad = true
-				c.Violate("unwrap-equals-original", "Unwrap", "error-instead-of-ok", fmt.Sprintf("Unwrap returned %q for stored form %s", uerr, short(in)), w)
+				viol(c, "unwrap-equals-original", "Unwrap", "error-instead-of-ok", w, "Unwrap returned %q for stored form %s", uerr, short(in))
 			default:
 				if !reflect.DeepEqual(nr.Payload, *exp.typed) {
 					bad = true
-					c.Violate("unwrap-equals-original", "Unwrap", "wrong-value", fmt.Sprintf("typed record %+v became %+v; stored form %s", *exp.typed, nr.Payload, short(in)), w)
+					viol(c, "unwrap-equals-original", "Unwrap", "wrong-value", w, "typed record %+v became %+v; stored form %s", *exp.typed, nr.Payload, short(in))
 				}
 				if nr.Key() != exp.key {
 					bad = true
-					c.Violate("unwrap-equals-original", "Unwrap", "wrong-key", fmt.Sprintf("key %q became %q", exp.key, nr.Key()), w)
+					viol(c, "unwrap-equals-original", "Unwrap", "wrong-key", w, "key %q became %q", exp.key, nr.Key())
 				}
 				if nr.Meta() == nil || readMeta(nr.Meta()) != exp.meta {
 					bad = true
-					c.Violate("unwrap-equals-original", "Unwrap", "wrong-meta", fmt.Sprintf("meta %+v lost by Unwrap", exp.meta), w)
+					viol(c, "unwrap-equals-original", "Unwrap", "wrong-meta", w, "meta %+v lost by Unwrap", exp.meta)
 				}
 			}
 		}
@@ -543,7 +544,7 @@ func checkTyped(c *vlib.Ctx, st *stats, key string, m metaV, v Payload) string {
 			pv, _ := vlib.Catch(func() { uerr = record.Unwrap(p2.w, nr) })
 			st.calls++
 			if pv != nil || uerr != nil || !reflect.DeepEqual(nr.Payload, v) {
-				c.Violate("unwrap-equals-original", "Unwrap", "wrong-value-second-generation", fmt.Sprintf("typed record %+v became %+v (panic %v, err %v) after two round trips", v, nr.Payload, pv, uerr), w)
+				viol(c, "unwrap-equals-original", "Unwrap", "wrong-value-second-generation", w, "typed record %+v became %+v (panic %v, err %v) after two round trips", v, nr.Payload, pv, uerr)
 				out = "second-generation-mismatch"
 			}
 		}
@@ -583,11 +584,11 @@ func checkBytes(c *vlib.Ctx, st *stats, family string, in, tail []byte) string {
 	p := parse(key, exact)
 	st.calls++
 	if p.panicV != nil {
-		c.Violate("parse-never-panics", "NewRawWrapper", vlib.PanicSite(p.stack), fmt.Sprintf("NewRawWrapper(%s) panicked: %v", short(in), p.panicV), mkw())
+		viol(c, "parse-never-panics", "NewRawWrapper", vlib.PanicSite(p.stack), mkw(), "NewRawWrapper(%s) panicked: %v", short(in), p.panicV)
 		return "parse:" + ref.stage + ":panic"
 	}
 	if p.err == nil && p.w == nil {
-		c.Violate("record-or-error", "NewRawWrapper", "nil-record-and-nil-error", fmt.Sprintf("NewRawWrapper(%s) returned (nil, nil)", short(in)), mkw())
+		viol(c, "record-or-error", "NewRawWrapper", "nil-record-and-nil-error", mkw(), "NewRawWrapper(%s) returned (nil, nil)", short(in))
 		return "parse:" + ref.stage + ":nil"
 	}
 	// second call: same bytes, but followed by further bytes inside the same allocation
@@ -597,7 +598,7 @@ func checkBytes(c *vlib.Ctx, st *stats, family string, in, tail []byte) string {
 	p2 := parse(key, slack[:len(in)])
 	st.calls++
 	if !sameResult(p, p2) {
-		c.Violate("no-read-beyond-input", "NewRawWrapper", "result-depends-on-bytes-after-input", fmt.Sprintf("NewRawWrapper(%s): %s with cap==len, %s when followed by %s", short(in), p.class(), p2.class(), short(tail)), mkw())
+		viol(c, "no-read-beyond-input", "NewRawWrapper", "result-depends-on-bytes-after-input", mkw(), "NewRawWrapper(%s): %s with cap==len, %s when followed by %s", short(in), p.class(), p2.class(), short(tail))
 	}
 	if p.err == nil {
 		// data must be a part of the input (the suffix it is by layout)
@@ -605,14 +606,14 @@ func checkBytes(c *vlib.Ctx, st *stats, family string, in, tail []byte) string {
 			s0 := uintptr(unsafe.Pointer(unsafe.SliceData(exact)))
 			d0 := uintptr(unsafe.Pointer(unsafe.SliceData(p.data)))
 			if d0 < s0 || d0+uintptr(len(p.data)) > s0+uintptr(len(exact)) {
-				c.Violate("data-within-input", "NewRawWrapper", "outside-input", fmt.Sprintf("NewRawWrapper(%s) returned %d data bytes outside the input", short(in), len(p.data)), mkw())
+				viol(c, "data-within-input", "NewRawWrapper", "outside-input", mkw(), "NewRawWrapper(%s) returned %d data bytes outside the input", short(in), len(p.data))
 			}
 		}
 		if len(p.data) > len(in) {
-			c.Violate("data-within-input", "NewRawWrapper", "longer-than-input", fmt.Sprintf("NewRawWrapper(%s) returned %d data bytes", short(in), len(p.data)), mkw())
+			viol(c, "data-within-input", "NewRawWrapper", "longer-than-input", mkw(), "NewRawWrapper(%s) returned %d data bytes", short(in), len(p.data))
 		}
 		if ref.lengthExceeds {
-			c.Violate("length-field-validated", "NewRawWrapper", "record-instead-of-error", fmt.Sprintf("NewRawWrapper(%s) returned a record although the block length exceeds the input", short(in)), mkw())
+			viol(c, "length-field-validated", "NewRawWrapper", "record-instead-of-error", mkw(), "NewRawWrapper(%s) returned a record although the block length exceeds the input", short(in))
 		}
 	}
 	out := p.class()
@@ -629,16 +630,16 @@ func checkBytes(c *vlib.Ctx, st *stats, family string, in, tail []byte) string {
 			w.Note = "input is MarshalRecord of the record described by the layout"
 			switch {
 			case p.err != nil:
-				c.Violate("roundtrip-parses", siteWrapper, "error-instead-of-ok", fmt.Sprintf("NewRawWrapper(%s) = error %q but the input is the stored form of meta %+v format %d", short(in), p.err, ref.meta, ref.format), w)
+				viol(c, "roundtrip-parses", siteWrapper, "error-instead-of-ok", w, "NewRawWrapper(%s) = error %q but the input is the stored form of meta %+v format %d", short(in), p.err, ref.meta, ref.format)
 				out = "error-on-image"
 			case p.meta != ref.meta:
-				c.Violate("roundtrip-meta", siteWrapper, "wrong-meta", fmt.Sprintf("NewRawWrapper(%s): meta %+v, layout says %+v", short(in), p.meta, ref.meta), w)
+				viol(c, "roundtrip-meta", siteWrapper, "wrong-meta", w, "NewRawWrapper(%s): meta %+v, layout says %+v", short(in), p.meta, ref.meta)
 				out = "mismatch-on-image"
 			case !ref.meta.deleted() && p.format != ref.format:
-				c.Violate("roundtrip-format", siteWrapper, "wrong-format", fmt.Sprintf("NewRawWrapper(%s): format %d, layout says %d", short(in), p.format, ref.format), w)
+				viol(c, "roundtrip-format", siteWrapper, "wrong-format", w, "NewRawWrapper(%s): format %d, layout says %d", short(in), p.format, ref.format)
 				out = "mismatch-on-image"
 			case !bytes.Equal(p.data, ref.data):
-				c.Violate("roundtrip-data", siteWrapper, "wrong-bytes", fmt.Sprintf("NewRawWrapper(%s): data %s, layout says %s", short(in), short(p.data), short(ref.data)), w)
+				viol(c, "roundtrip-data", siteWrapper, "wrong-bytes", w, "NewRawWrapper(%s): data %s, layout says %s", short(in), short(p.data), short(ref.data))
 				out = "mismatch-on-image"
 			default:
 				out += "-image-ok"
@@ -657,6 +658,32 @@ func checkBytes(c *vlib.Ctx, st *stats, family string, in, tail []byte) string {
 		}
 	}
 	return "parse:" + ref.stage + ":" + out
+}
+
+// viol records a violation. Only the first occurrences of a signature are
+// itemised (formatted and handed to vlib); the rest are counted, so that a
+// defect hit by millions of cases does not serialise the workers.
+var violCount sync.Map // signature -> *int64
+
+const itemisedPerSignature = 200
+
+func viol(c *vlib.Ctx, clause, site, disc string, w witness, format string, a ...any) {
+	sig := clause + "|" + site + "|" + disc
+	v, ok := violCount.Load(sig)
+	if !ok {
+		v, _ = violCount.LoadOrStore(sig, new(int64))
+	}
+	if atomic.AddInt64(v.(*int64), 1) > itemisedPerSignature {
+		return
+	}
+	c.Violate(clause, site, disc, fmt.Sprintf(format, a...), w)
+}
+
+func reportViolCounts(c *vlib.Ctx) {
+	violCount.Range(func(k, v any) bool {
+		c.Extra("violating_cases:"+k.(string), atomic.LoadInt64(v.(*int64)))
+		return true
+	})
 }
 
 // ---------- domains ----------
@@ -912,7 +939,7 @@ func corruptions(b baseEnc, fullSubstUpTo int, pairUpTo int, emit func(kind stri
 func main() {
 	vlib.Main("C08", "model_checking", func(c *vlib.Ctx) {
 		c.Rule("exhaustive enumeration of (a) records: metadata tuples over a boundary value set^4 x both flags x payload set x format set (all 256 formats on a smaller meta set) as wrapped raw data, and x a typed-value set of the harness schema as typed records, each serialised with the real MarshalRecord, parsed with the real NewRawWrapper, unwrapped (typed) and serialised a second time; " +
-			"(b) byte strings: all strings of length <= 3; 01 | len | every meta-format byte | every body of length <= 2 (<= 3 in thorough for 14 formats) with and without a data section; 01 | every boundary block length | 0..3 bytes; and for N valid encodings (wrappers, typed records, meta sections in JSON/CBOR/MsgPack/YAML/gzip) every truncation, every single-byte substitution (all 256 values in the header, {00,7f,80,ff} elsewhere), every varint field replaced by {0, v-1, v+1, 127, 128, 2^31, 2^62, 2^63, 2^64-1, non-minimal, >64 bit, unterminated}, single-byte insertions/deletions and pairs of header substitutions; every byte string is parsed twice (cap==len, and followed by a plausible continuation in the same allocation). " +
+			"(b) byte strings: all strings of length <= 3; 01 | len | every meta-format byte | every body of length <= 2 (<= 3 in thorough for the 9 dsd format bytes and '{') with and without a data section; 01 | every boundary block length | 0..3 bytes; and for N valid encodings (wrappers, typed records, meta sections in JSON/CBOR/MsgPack/YAML/gzip) every truncation, every single-byte substitution (all 256 values in the header, {00,7f,80,ff} elsewhere), every varint field replaced by {0, v-1, v+1, 127, 128, 2^31, 2^62, 2^63, 2^64-1, non-minimal, >64 bit, unterminated}, single-byte insertions/deletions and pairs of header substitutions; every byte string is parsed twice (cap==len, and followed by a plausible continuation in the same allocation). " +
 			"states = distinct records + distinct byte strings (corruptions de-duplicated by hash); non-trivial = records, and byte strings for which a textbook decoder reaches the meta section (version 1 and a block covered by the input)")
 		c.Assume("the key is not part of the stored form: NewRawWrapper receives database name and key from the caller (as storage backends do); 'same key' is checked on Key() of the result")
 		c.Assume("for deleted records (Deleted > 0) the stored form carries no format byte and the parser reports RAW; the data format of a deleted record is therefore not compared, only that it has no data")
@@ -929,30 +956,56 @@ func main() {
 			return
 		}
 		thorough := !c.Quick()
-		c.SetBudget(time.Duration(vlib.Pick(c, 150, 1500)) * time.Second)
+		c.SetBudget(time.Duration(vlib.Pick(c, 170, 1620)) * time.Second)
+
+		last, lastName := time.Now(), ""
+		phase := func(name string) { // wall time per scenario, informational only
+			if lastName != "" {
+				c.Extra("wall_s:"+lastName, math.Round(time.Since(last).Seconds()*10)/10)
+			}
+			last, lastName = time.Now(), name
+			if name != "" {
+				c.Scenario(name)
+			}
+		}
+		defer reportViolCounts(c)
+		defer phase("")
 
 		// ---- (a) round trips ----
 		metas := allMetas(metaValues(thorough))
 		pls := payloads(thorough)
 		fa := formatAlphabet()
-		c.Scenario("roundtrip-wrapper")
+		phase("roundtrip-wrapper")
 		c.Extra("meta_tuples", int64(len(metas)))
 		c.Extra("payloads", int64(len(pls)))
 		c.Extra("formats_full_product", int64(len(fa)))
 		chunks := 256
+		wrapperRow := func(st *stats, i int) {
+			for pi, p := range pls {
+				for _, f := range fa {
+					st.outcomes[checkWrapper(c, st, keys[(i+pi)%len(keys)], metas[i], f, p)]++
+				}
+			}
+		}
+		{
+			// simplest record first and sequentially (all-zero metadata, shortest
+			// payloads first), so that the witness kept for a signature is the
+			// same minimal one in every run
+			st := newStats()
+			wrapperRow(st, 0)
+			st.flush(c)
+		}
 		c.ParallelFor(chunks, func(ch int) {
 			st := newStats()
 			defer st.flush(c)
 			for i := ch; i < len(metas); i += chunks {
+				if i == 0 {
+					continue
+				}
 				if i%64 == 0 && c.Expired() {
 					return
 				}
-				m := metas[i]
-				for pi, p := range pls {
-					for _, f := range fa {
-						st.outcomes[checkWrapper(c, st, keys[(i+pi)%len(keys)], m, f, p)]++
-					}
-				}
+				wrapperRow(st, i)
 			}
 		})
 		// all 256 formats on a smaller meta set (thorough: on the quick meta set)
@@ -984,7 +1037,7 @@ func main() {
 				}
 			}
 		})
-		c.Scenario("roundtrip-typed")
+		phase("roundtrip-typed")
 		tvs := typedValues()
 		c.Extra("typed_values", int64(len(tvs)))
 		tm := metas
@@ -1009,7 +1062,7 @@ func main() {
 		c.Sample(witness{Kind: "wrapper", Key: "db:k", Meta: &fewMetas()[3], Format: dsd.JSON, Payload: hx([]byte(`{"a":1}`)), Note: "deleted: stored form " + hx(refMarshal(fewMetas()[3], dsd.JSON, nil))})
 
 		// ---- (b1) all byte strings of length <= 3 ----
-		c.Scenario("bytes-len-le-3")
+		phase("bytes-len-le-3")
 		canon := refMarshal(metaV{C: 1, M: 2}, dsd.JSON, []byte("{}"))
 		c.ParallelFor(256, func(b0 int) {
 			st := newStats()
@@ -1038,12 +1091,11 @@ func main() {
 		c.Sample(witness{Kind: "bytes", Family: "len<=3", Input: "012347"})
 
 		// ---- (b2) short meta sections in every format ----
-		c.Scenario("short-meta-sections")
+		phase("short-meta-sections")
 		interesting := map[uint8]bool{}
-		for _, f := range formatAlphabet() {
+		for _, f := range append(append([]uint8{}, dsdFormats...), '{') { // formats the meta loader knows, and a meta section without format byte
 			interesting[f] = true
 		}
-		interesting['{'] = true
 		tails := [][]byte{nil, []byte("J{}")}
 		c.ParallelFor(256*16, func(job int) {
 			f, part := job/16, job%16
@@ -1084,7 +1136,7 @@ func main() {
 		c.Sample(witness{Kind: "bytes", Family: "short-meta", Input: hx([]byte{1, 3, 74, '{', '}', 74, '{', '}'}), Note: "meta section in JSON"})
 
 		// ---- (b3) boundary block lengths ----
-		c.Scenario("block-length-boundaries")
+		phase("block-length-boundaries")
 		{
 			st := newStats()
 			seen := map[uint64]bool{}
@@ -1111,7 +1163,7 @@ func main() {
 		c.Sample(witness{Kind: "bytes", Family: "block-length", Input: hx(append([]byte{1}, append(refPack(1<<63), 71)...)), Note: "claimed block length 2^63, one byte present"})
 
 		// ---- (b4) corruptions of valid encodings ----
-		c.Scenario("corruptions")
+		phase("corruptions")
 		nBase := vlib.Pick(c, 50, 160)
 		bases := baseEncodings(c, nBase)
 		c.Extra("valid_encodings_corrupted", int64(len(bases)))
